@@ -228,6 +228,8 @@ def err_class(e):
 
 
 def _worker_init(prop_module, repo):
+  import logging
+  logging.disable(logging.CRITICAL)   # gin logs every unreadable location; the checks judge outcomes
   os.environ[GUARD] = '1'
   os.environ['GIN_REPO'] = repo
   sys.setrecursionlimit(3000)
